@@ -13,6 +13,7 @@ import (
 	"math"
 	"net"
 	"os"
+	"strconv"
 	"sync"
 	"time"
 )
@@ -96,7 +97,30 @@ func verifAssert(c bool, label string) {
 }
 func verifFail(label string)  { verifAssert(false, label) }
 func verifCover(label string) {}
-func verifSettle()            { time.Sleep(50 * time.Millisecond) }
+// verifSettle (native): give the other goroutines time to run to quiescence. The base wait (VERIF_SETTLE_MS,
+// default 50 ms) is stretched when the machine is loaded: whenever a 5 ms sleep oversleeps noticeably, the
+// remaining wait is extended by a multiple of the overshoot (bounded), so that a loaded machine does not turn a
+// replay into a timing flake.
+func verifSettle() {
+	base := 50 * time.Millisecond
+	if v := os.Getenv("VERIF_SETTLE_MS"); v != "" {
+		if n, err := strconv.Atoi(v); err == nil && n > 0 {
+			base = time.Duration(n) * time.Millisecond
+		}
+	}
+	deadline := time.Now().Add(base)
+	limit := time.Now().Add(40 * base)
+	for time.Now().Before(deadline) {
+		t0 := time.Now()
+		time.Sleep(5 * time.Millisecond)
+		if over := time.Since(t0) - 5*time.Millisecond; over > 3*time.Millisecond {
+			deadline = deadline.Add(4 * over)
+			if deadline.After(limit) {
+				deadline = limit
+			}
+		}
+	}
+}
 func verifConcretize(x int) int { return x }
 func verifSameBacking(a, b []byte) bool {
 	if cap(a) == 0 || cap(b) == 0 {
